@@ -28,9 +28,11 @@ import (
 
 var c16Closer = map[string]string{"(": ")", "[": "]", "{": "}", "#{": "}"}
 
-func isCloser(t string) bool { return t == ")" || t == "]" || t == "}" }
+func isCloser(t string) bool  { return t == ")" || t == "]" || t == "}" }
 func isComment(t string) bool { return strings.HasPrefix(t, ";") }
-func isKeyTok(t string) bool  { return strings.HasPrefix(t, ":") || strings.HasPrefix(t, `"`) || strings.HasPrefix(t, "¬") }
+func isKeyTok(t string) bool {
+	return strings.HasPrefix(t, ":") || strings.HasPrefix(t, `"`) || strings.HasPrefix(t, "¬")
+}
 
 // parseForm recognises one form starting at toks[i]; returns next index, ok.
 func parseForm(toks []string, i int) (int, bool) {
@@ -224,10 +226,10 @@ func init() {
 			return g
 		}
 		fam := &vf.Family{
-			Name:   "expressions",
-			Bounds: "all well-formed expressions of weight <=5 (quick) / <=6 (thorough) over list/vector (0-3 elements), map (0-2 entries), set (0-2 members), quote prefix, atoms incl. strings and raw strings containing bracket characters, comments containing ')'; each: every token-boundary cut, each closer appended, each closer inserted at every token boundary, each closer replaced, a second expression (complete, or still open in 7 ways) appended",
-			Setup:  func(t string) { tier = t },
-			N:      func(t string) int64 { tier = t; return gOf().Count(0, wOf()) },
+			Name:     "expressions",
+			Bounds:   "all well-formed expressions of weight <=5 (quick) / <=6 (thorough) over list/vector (0-3 elements), map (0-2 entries), set (0-2 members), quote prefix, atoms incl. strings and raw strings containing bracket characters, comments containing ')'; each: every token-boundary cut, each closer appended, each closer inserted at every token boundary, each closer replaced, a second expression (complete, or still open in 7 ways) appended",
+			Setup:    func(t string) { tier = t },
+			N:        func(t string) int64 { tier = t; return gOf().Count(0, wOf()) },
 			Describe: func(i int64) string { return strconv.Quote(strings.Join(toksOf(gOf().Unrank(0, i)), " ")) },
 			Run: func(i int64, r *vf.Rec) {
 				toks := toksOf(gOf().Unrank(0, i))
@@ -374,7 +376,7 @@ func init() {
 					return lisp.READ(txt, nil, nil)
 				}})
 			},
-			N:      func(t string) int64 { tier = t; return gnOf().Count(0, nestW()) + int64(len(nestFixed)) },
+			N: func(t string) int64 { tier = t; return gnOf().Count(0, nestW()) + int64(len(nestFixed)) },
 			Describe: func(i int64) string {
 				if n := gnOf().Count(0, nestW()); i >= n {
 					return "nested read of " + nestFixed[i-n]
@@ -434,14 +436,14 @@ func init() {
 		}
 		return &vf.Check{
 			ID: "C16", Level: "model_checking",
-			Rule: "every well-formed expression of the bounded grammar is cut at every token boundary and extended/mutated by every closing bracket; an independent bracket-stack recogniser decides which cuts are completable by closers and names the innermost closer; the reader's error and the REPL's own multiLine verdict (through a test-only export) must match; non-trivial = the expression had at least one constrained cut",
+			Rule:        "every well-formed expression of the bounded grammar is cut at every token boundary and extended/mutated by every closing bracket; an independent bracket-stack recogniser decides which cuts are completable by closers and names the innermost closer; the reader's error and the REPL's own multiLine verdict (through a test-only export) must match; non-trivial = the expression had at least one constrained cut",
 			Assumptions: []string{"cuts are at token boundaries; cuts ending in a prefix macro, an odd map or a non-string key are outside the property"},
-			Families: []*vf.Family{fam, nested, sessions},
+			Families:    []*vf.Family{fam, nested, sessions},
 		}
 	})
 }
-var _ = lisp.PRINT
 
+var _ = lisp.PRINT
 
 // c16Lines renders tokens as typed lines, per tokens per line (a comment token ends its line).
 func c16Lines(toks []string, per int) []string {
